@@ -4,6 +4,7 @@ import (
 	"bytes"
 	"fmt"
 	"runtime/debug"
+	"strings"
 
 	"github.com/rminnich/go9p"
 
@@ -48,6 +49,7 @@ func c01Cases(tier string, seed int64) []core.Case {
 	for _, dotu := range []bool{false, true} {
 		dotu := dotu
 		cases = append(cases, core.Case{ID: "dir/" + dialect(dotu), Run: func(ctx *core.Ctx) core.Result { return c01Dir(ctx, dotu, nrand) }})
+		cases = append(cases, core.Case{ID: "rerror-akaros/" + dialect(dotu), Run: func(ctx *core.Ctx) core.Result { return c01Akaros(ctx, dotu, nrand) }})
 		cases = append(cases, core.Case{ID: "rread2step/" + dialect(dotu), Run: func(ctx *core.Ctx) core.Result { return c01Rread(ctx, dotu, nrand) }})
 	}
 	return cases
@@ -325,6 +327,76 @@ func c01Dir(ctx *core.Ctx, dotu bool, nrand int) core.Result {
 		one(&chooser{r: r, focus: -1, all: -1}, 1+r.Intn(5))
 	}
 	return res
+}
+
+// ---- Rerror with the library's "akaros" switch on: the text on the wire is the error number in hex, a space and
+// the text given; everything else of the layout is unchanged (size = length, string length prefix, ecode in .u)
+
+func c01Akaros(ctx *core.Ctx, dotu bool, nrand int) core.Result {
+	var res core.Result
+	r := core.NewRand(ctx.Seed, "c01/akaros"+dialect(dotu))
+	old := *go9p.Akaros
+	*go9p.Akaros = true
+	defer func() { *go9p.Akaros = old }()
+	fc := go9p.NewFcall(bufSize)
+	nums := []uint32{0, 1, 9, 0xF, 0x10, 0xFFF, 0xFFFF, 0x10000, 0xFFFFF, 0x100000, 0x7FFFFFFF, 0x80000000, 0xFFFFFFFE, 0xFFFFFFFF}
+	texts := []string{"", "x", "file not found", strings.Repeat("e", 255), strings.Repeat("long", 4000), string(r.Bytes(300))}
+	try := func(num uint32, text string) {
+		res.Evals++
+		det := map[string]interface{}{"errornum": num, "text_len": len(text), "akaros": true}
+		var err error
+		if !safely(&res, "packrerror-akaros", det, func() { err = go9p.PackRerror(fc, text, num, dotu) }) {
+			return
+		}
+		if err != nil {
+			res.Violate("akaros-pack-error;"+dialect(dotu), fmt.Sprintf("PackRerror(%d-byte text, %#x) with akaros on: %v", len(text), num, err), det)
+			return
+		}
+		tag := uint16(r.Uint64())
+		go9p.SetTag(fc, tag)
+		want := wire.Encode(&wire.Msg{Type: wire.Rerror, Tag: tag, Ename: fmt.Sprintf("%04X %v", num, text), Ecode: num}, dotu)
+		if !bytes.Equal(fc.Pkt, want) || int(fc.Size) != len(want) {
+			res.Violate("akaros-bytes;"+dialect(dotu)+";"+numClass(num), fmt.Sprintf("Rerror with akaros on (errornum %#x, %d-byte text): packet of %d bytes with size field %d, the layout has %d bytes", num, len(text), len(fc.Pkt), fc.Size, len(want)), det)
+			return
+		}
+		nfc, used, uerr := go9p.Unpack(append(append([]byte{}, fc.Pkt...), 0xAA, 0xBB), dotu)
+		if uerr != nil || used != len(want) || nfc.Error != fmt.Sprintf("%04X %v", num, text) || (dotu && nfc.Errornum != num) {
+			res.Violate("akaros-decode;"+dialect(dotu)+";"+numClass(num), fmt.Sprintf("Rerror packed with akaros on (errornum %#x) does not decode to its fields: %v", num, uerr), det)
+		}
+		res.Sig(fmt.Sprintf("akaros|%s|%s|%d", dialect(dotu), numClass(num), lenClassStr(len(text))))
+	}
+	for _, n := range nums {
+		for _, t := range texts {
+			try(n, t)
+		}
+	}
+	for i := 0; i < nrand/4; i++ {
+		try(uint32(r.Uint64()), string(r.Bytes(r.Intn(2000))))
+	}
+	res.Sample(map[string]interface{}{"case": "PackRerror with the akaros switch on", "errornums": len(nums), "texts": len(texts)})
+	return res
+}
+
+func numClass(n uint32) string {
+	switch {
+	case n <= 0xFFFF:
+		return "<=FFFF"
+	case n <= 0xFFFFF:
+		return "5hex"
+	case n <= 0xFFFFFFF:
+		return "6-7hex"
+	}
+	return "8hex"
+}
+
+func lenClassStr(n int) int {
+	switch {
+	case n == 0:
+		return 0
+	case n < 256:
+		return 1
+	}
+	return 2
 }
 
 // ---- InitRread / SetRreadCount
